@@ -10,6 +10,7 @@
 From Coq Require Import List ZArith NArith Bool String Ascii Permutation.
 From Verif Require Import gen.Params model.Checksum model.Throttle model.RoomAuth proofs.RoomAuth_proofs
      corr.Run_C02 proofs.C02_trace_proofs.
+From Verif Require model.BackendCfg model.OutReq proofs.BackendCfg_proofs proofs.OutReq_proofs.
 Import ListNotations.
 Open Scope Z_scope.
 Local Open Scope string_scope.
@@ -196,6 +197,106 @@ Theorem C02_outgoing_random_injective :
   forall i, (i < 32)%nat -> rand1 i = rand2 i.
 Proof. exact outgoing_random_injective. Qed.
 
+(* ---- outgoing direction: WHICH secret ------------------------------------------
+
+   "... the matching checksum under that backend's secret": the secret of the backend the
+   configuration IN FORCE when the request is sent resolves the request URL to.
+   model/OutReq.v: PerformJSONRequest looks the URL up in the backend tables as they are now
+   (the tables, Reload and the etcd events are C13's model, model/BackendCfg.v) and signs with
+   the secret of the answer; the theorems compose it with C13's "after any chain of reloads /
+   any etcd history every lookup answers like a fresh start".  For every MAC function, URL
+   parser, randomness source, map from C13's abstract secrets to byte strings, start
+   configuration, and every history `pre` of reloads and earlier requests (to this or any
+   other URL):
+
+   the request that follows is sent exactly as a server freshly started with the LAST
+   configuration would send it - in particular the checksum is under the secret that the
+   last configuration gives the backend at this URL, whatever secret an earlier request to
+   the same URL was signed with.
+   PARTIAL exactly as C13_reload_eq_fresh_partial: chains of `backends`-list configurations
+   (new_style); the deprecated modes do not support reload (open finding of C13). *)
+Theorem C02_outgoing_static_current_partial :
+  forall hmac up secret_of rand c0 pre u body,
+  Forall BackendCfg_proofs.new_style (c0 :: OutReq.configs_of pre) ->
+  OutReq.orun_static hmac up secret_of rand c0 (pre ++ [OutReq.OReq u body])%list =
+  (OutReq.orun_static hmac up secret_of rand c0 pre ++
+   [OutReq.sign hmac secret_of (rand (OutReq.requests_in pre))
+      (BackendCfg.answer_of (BackendCfg.lookup_static up
+         (BackendCfg.fresh up (last (OutReq.configs_of pre) c0)) u)) body])%list.
+Proof. exact OutReq_proofs.out_static_current. Qed.
+
+(* a request that leaves: the last configuration has a backend at the URL and the checksum is
+   the MAC under ITS secret (the receiver's validation with that secret succeeds), random >= 32 *)
+Theorem C02_outgoing_static_signed_partial :
+  forall hmac up secret_of rand c0 pre u body rnd chk,
+  Forall BackendCfg_proofs.new_style (c0 :: OutReq.configs_of pre) ->
+  last (OutReq.orun_static hmac up secret_of rand c0 (pre ++ [OutReq.OReq u body])%list) OutReq.SNone
+    = OutReq.SSent (rnd, chk) ->
+  exists p, BackendCfg.answer_of (BackendCfg.lookup_static up
+              (BackendCfg.fresh up (last (OutReq.configs_of pre) c0)) u) = BackendCfg.ASome p /\
+    chk = hex (hmac (secret_of (OutReq.answer_secret p)) (rnd ++ body)) /\
+    validb hmac chk rnd body (secret_of (OutReq.answer_secret p)) = true /\
+    (32 <= String.length rnd)%nat.
+Proof. exact OutReq_proofs.out_static_signed. Qed.
+
+(* nothing is sent to a URL the last configuration has no backend for (backend removed, URL changed) *)
+Theorem C02_outgoing_static_removed_partial :
+  forall hmac up secret_of rand c0 pre u body,
+  Forall BackendCfg_proofs.new_style (c0 :: OutReq.configs_of pre) ->
+  BackendCfg.lookup_static up (BackendCfg.fresh up (last (OutReq.configs_of pre) c0)) u = BackendCfg.LRes None ->
+  last (OutReq.orun_static hmac up secret_of rand c0 (pre ++ [OutReq.OReq u body])%list) OutReq.SPanic = OutReq.SNone.
+Proof. exact OutReq_proofs.out_static_removed. Qed.
+
+(* etcd storage: every history of put / delete events and requests, no hypothesis: the request is
+   sent as a server that starts with the keys etcd still holds would send it *)
+Theorem C02_outgoing_etcd_current :
+  forall hmac up secret_of rand pre u body,
+  OutReq.erun_etcd hmac up secret_of rand (pre ++ [OutReq.EReq u body])%list =
+  (OutReq.erun_etcd hmac up secret_of rand pre ++
+   [OutReq.sign hmac secret_of (rand (OutReq.erequests_in pre))
+      (BackendCfg.answer_of (BackendCfg.lookup_etcd up
+         (BackendCfg.fresh_etcd up (BackendCfg.final_kv (OutReq.events_of pre))) u)) body])%list.
+Proof. exact OutReq_proofs.out_etcd_current. Qed.
+
+Theorem C02_outgoing_etcd_signed :
+  forall hmac up secret_of rand pre u body rnd chk,
+  last (OutReq.erun_etcd hmac up secret_of rand (pre ++ [OutReq.EReq u body])%list) OutReq.SNone
+    = OutReq.SSent (rnd, chk) ->
+  exists p, BackendCfg.answer_of (BackendCfg.lookup_etcd up
+              (BackendCfg.fresh_etcd up (BackendCfg.final_kv (OutReq.events_of pre))) u) = BackendCfg.ASome p /\
+    chk = hex (hmac (secret_of (OutReq.answer_secret p)) (rnd ++ body)) /\
+    validb hmac chk rnd body (secret_of (OutReq.answer_secret p)) = true /\
+    (32 <= String.length rnd)%nat.
+Proof. exact OutReq_proofs.out_etcd_signed. Qed.
+
+Theorem C02_outgoing_etcd_removed :
+  forall hmac up secret_of rand pre u body,
+  BackendCfg.lookup_etcd up (BackendCfg.fresh_etcd up (BackendCfg.final_kv (OutReq.events_of pre))) u = BackendCfg.LRes None ->
+  last (OutReq.erun_etcd hmac up secret_of rand (pre ++ [OutReq.EReq u body])%list) OutReq.SPanic = OutReq.SNone.
+Proof. exact OutReq_proofs.out_etcd_removed. Qed.
+
+(* not vacuous: request, secret changed by a reload, request to the same URL: the second one is
+   signed with the new secret; backend removed: nothing is sent; the same through etcd *)
+Example C02_outgoing_current_nonvacuous :
+  let up := BackendCfg_proofs.wit_up in
+  let sec := fun n : N => if N.eqb n 1 then "old" else "new" in
+  let hm := fun k m : bytes => (k ++ "|" ++ m) in
+  let cfg := fun s => BackendCfg_proofs.wit_cfg [1%N] [(1%N, BackendCfg_proofs.wit_sec "https://h1.example/a/" s)] in
+  let u := "https://h1.example/a/x" in
+  let rnd := hex (rand_read (fun _ => "a"%char) 32) in
+  Forall BackendCfg_proofs.new_style [cfg 1%N; cfg 2%N; BackendCfg_proofs.wit_none] /\
+  OutReq.orun_static hm up sec (fun _ _ => "a"%char) (cfg 1%N)
+    [OutReq.OReq u "{}"; OutReq.OReload (cfg 2%N); OutReq.OReq u "{}"; OutReq.OReload BackendCfg_proofs.wit_none; OutReq.OReq u "{}"]
+  = [OutReq.SSent (rnd, hex ("old|" ++ rnd ++ "{}")); OutReq.SSent (rnd, hex ("new|" ++ rnd ++ "{}")); OutReq.SNone] /\
+  OutReq.erun_etcd hm up sec (fun _ _ => "a"%char)
+    [OutReq.EEvent (BackendCfg.EPut 1 (BackendCfg_proofs.wit_e "https://h1.example/a/" 1)); OutReq.EReq u "{}";
+     OutReq.EEvent (BackendCfg.EPut 1 (BackendCfg_proofs.wit_e "https://h1.example/a/" 2)); OutReq.EReq u "{}";
+     OutReq.EEvent (BackendCfg.EDel 1); OutReq.EReq u "{}"]
+  = [OutReq.SSent (rnd, hex ("old|" ++ rnd ++ "{}")); OutReq.SSent (rnd, hex ("new|" ++ rnd ++ "{}")); OutReq.SNone].
+Proof.
+  split; [repeat constructor; try discriminate; reflexivity|]. split; vm_compute; reflexivity.
+Qed.
+
 (* ---- the trace predicate on the model's traces -------------------------------- *)
 
 (* Full statement:  forall cfg xs, P_C02 cfg (model_trace cfg xs) = true
@@ -284,5 +385,11 @@ Print Assumptions C02_boundary_shift_accepted.
 Print Assumptions C02_tamper_pairwise_refuted.
 Print Assumptions C02_outgoing_checksum.
 Print Assumptions C02_outgoing_random_injective.
+Print Assumptions C02_outgoing_static_current_partial.
+Print Assumptions C02_outgoing_static_signed_partial.
+Print Assumptions C02_outgoing_static_removed_partial.
+Print Assumptions C02_outgoing_etcd_current.
+Print Assumptions C02_outgoing_etcd_signed.
+Print Assumptions C02_outgoing_etcd_removed.
 Print Assumptions C02_P_on_model_partial.
 Print Assumptions C02_P_on_model_refuted.
